@@ -331,6 +331,45 @@ def mean_grp_accessor(ctx, ab, maxn):
     ctx.sample(sub, {"cube": "all words over {ND,a,b} of length 2..%d as pixels" % maxn})
 
 
+def falsy_nodata(ctx):
+    """nodata = 0 passed as an explicit argument (a falsy value) must be honoured exactly like any other nodata."""
+    import pandas as pd
+    import xarray as xr
+    st = _stats()
+    sub = "nodata_zero_argument"
+    n = 4
+    idx = sse.word_indices(4, n)
+    N = idx.shape[0]
+    vals = sse.render(idx, [0, -3, 2, 5]).astype("int16")      # symbol 0 -> nodata value 0
+    time = pd.date_range("2000-01-01", periods=n, freq="10D")
+    for attrs in ({}, {"nodata": 12345}, {"nodata": 0}):
+        da = xr.DataArray(vals.reshape(N, 1, n), dims=("y", "x", "time"), coords={"time": time}, attrs=attrs)
+        for w in (1, 2, 4):
+            kern = np.asarray(st.rolling_sum(vals, w, 0))[:, w - 1:]
+            try:
+                got = da.hdc.rolling.sum(w, nodata=0).values.reshape(N, -1)
+                ok = np.array_equal(got, kern)
+                msg = "" if ok else f"result differs from the kernel with nodata=0 (e.g. {vals[int(np.nonzero((got != kern).any(axis=1))[0][0])].tolist()})"
+            except Exception as e:
+                ok, msg = False, f"raised {type(e).__name__}: {e}"
+            ctx.count(sub, evaluations=N, nontrivial=N)
+            if not ok:
+                ctx.violation(sub, {"accessor": "rolling.sum", "attrs": attrs, "window": w}, {"kind": "falsy"}, f"rolling.sum({w}, nodata=0) with attrs {attrs}: {msg}")
+        for labels in ((0, 0, 1, 1), (0, 1, 0, 1), (0, 0, 0, 0)):
+            k = len(set(labels))
+            kern = np.asarray(st.mean_grp(vals, np.asarray(labels, "int16"), k, 0))
+            try:
+                got = da.hdc.algo.mean_grp(list(labels), nodata=0).values.reshape(N, n)
+                ok = np.array_equal(got, kern)
+                msg = "" if ok else f"result differs from the kernel with nodata=0 (e.g. {vals[int(np.nonzero((got != kern).any(axis=1))[0][0])].tolist()})"
+            except Exception as e:
+                ok, msg = False, f"raised {type(e).__name__}: {e}"
+            ctx.count(sub, evaluations=N, nontrivial=N)
+            if not ok:
+                ctx.violation(sub, {"accessor": "mean_grp", "attrs": attrs, "labels": list(labels)}, {"kind": "falsy"}, f"mean_grp({list(labels)}, nodata=0) with attrs {attrs}: {msg}")
+    ctx.sample(sub, {"nodata_argument": 0, "attrs_variants": [{}, {"nodata": 12345}, {"nodata": 0}]})
+
+
 # --------------------------------------------------------------------- long deterministic family
 def long_family(ctx):
     """Deterministic longer series over every supported dtype (windows straddling outages)."""
@@ -384,10 +423,14 @@ def run(ctx):
     rolling_accessor(ctx, letters, nds, 5 if ctx.thorough() else 4)
     mean_grp_accessor(ctx, ab, 5 if ctx.thorough() else 4)
     long_family(ctx)
+    falsy_nodata(ctx)
 
 
 def replay(sub, case, p):
     kind = case["kind"]
+    if kind == "falsy":
+        falsy_nodata(p)
+        return
     if kind in ("rolling", "rolling_edge"):
         vals = np.asarray([case["word"]], dtype=np.int64)
         valid = np.asarray([case["valid"]], dtype=bool)
